@@ -177,7 +177,7 @@ pub fn run_stress(args: &Args, mut out: Out) {
             .unwrap();
         let mut clients: Vec<Client> = (0..nclients).map(|_| Client { sock: None, port: 0, sent: 0, outstanding: false }).collect();
         let mut aborted: Vec<u16> = vec![];
-        let mut connect = |clients: &mut Vec<Client>, c: usize| {
+        let connect = |clients: &mut Vec<Client>, c: usize| {
             emit("ClientConnect", c as u64, 0);
             match std::net::TcpStream::connect_timeout(&addr, Duration::from_millis(1000)) {
                 Ok(s) => {
